@@ -55,3 +55,8 @@ fn merge_drop<'a, T: VecData<T> + 'a>(ops: &[MergeOp], left: &[T], right: &[T]) 
     result
 }
 
+
+#[cfg(feature = "verif")]
+pub fn verif_merge_drop<'a, T: VecData<T> + 'a>(ops: &[MergeOp], left: &[T], right: &[T]) -> Vec<T> {
+    merge_drop::<T>(ops, left, right)
+}
